@@ -37,6 +37,10 @@ enum Step {
     InstalledRetryAfter,
     UnparseableRetryAfter,
     PlanFailRetryAfter,
+    /// one / two attempts fail in transit, the next one is answered (when a poll interval is in
+    /// force there is no retry and the step is a plain transport failure)
+    NoUpdateAfterRetry,
+    UnparseableAfterRetries,
     Restart,
     // only in the reboot wait
     PingOk,
@@ -48,8 +52,8 @@ enum Step {
 
 fn is_failed_check(s: Step) -> Option<bool> {
     Some(match s {
-        Step::NoUpdate | Step::Installed | Step::InstalledRebootWait | Step::Deferred | Step::InstallFailed | Step::InstalledRetryAfter => false,
-        Step::Transport | Step::Status500 | Step::Unparseable | Step::PlanFail | Step::Forged | Step::UnparseableRetryAfter | Step::PlanFailRetryAfter => true,
+        Step::NoUpdate | Step::Installed | Step::InstalledRebootWait | Step::Deferred | Step::InstallFailed | Step::InstalledRetryAfter | Step::NoUpdateAfterRetry => false,
+        Step::Transport | Step::Status500 | Step::Unparseable | Step::PlanFail | Step::Forged | Step::UnparseableRetryAfter | Step::PlanFailRetryAfter | Step::UnparseableAfterRetries => true,
         _ => return None,
     })
 }
@@ -70,6 +74,27 @@ fn touches_time(s: Step) -> bool {
     )
 }
 
+/// What a step amounts to given whether a poll interval is in force when it starts.
+fn effective(s: Step, poll_in_force: bool) -> Step {
+    match s {
+        Step::NoUpdateAfterRetry => {
+            if poll_in_force {
+                Step::Transport
+            } else {
+                Step::NoUpdate
+            }
+        }
+        Step::UnparseableAfterRetries => {
+            if poll_in_force {
+                Step::Transport
+            } else {
+                Step::Unparseable
+            }
+        }
+        s => s,
+    }
+}
+
 #[derive(Clone, Copy, Debug, PartialEq)]
 struct Book {
     counter: u32,
@@ -81,8 +106,9 @@ fn trunc_us(ns: i128) -> i128 {
     (ns / 1000) * 1000
 }
 
-fn run_one(ctx: &RunCtx, tier: Tier) -> RunOut {
-    let max_len = tier.pick(4usize, 5usize);
+/// `bounded`: fixed length, the step choice counts as a deviation from the default step (a
+/// no-update check / a successful ping); otherwise every history up to `max_len` (choice 0 = stop).
+fn run_one(ctx: &RunCtx, max_len: usize, bounded: bool) -> RunOut {
     let cup = choose("cup", 2) == 1;
     let bad_url = !cup && choose("bad_url", 2) == 1;
     let mut setup = Setup::new(Mode::Start);
@@ -116,6 +142,8 @@ fn run_one(ctx: &RunCtx, tier: Tier) -> RunOut {
                 Step::InstalledRetryAfter,
                 Step::UnparseableRetryAfter,
                 Step::PlanFailRetryAfter,
+                Step::NoUpdateAfterRetry,
+                Step::UnparseableAfterRetries,
             ];
             if cup {
                 m.push(Step::Forged);
@@ -123,11 +151,15 @@ fn run_one(ctx: &RunCtx, tier: Tier) -> RunOut {
             m
         };
         crate::chooser::fingerprint(h.ex().w.lock().unwrap().fingerprint());
-        let c = choose("step", menu.len() + 1);
-        if c == 0 {
-            break;
-        }
-        let s = menu[c - 1];
+        let s = if bounded {
+            menu[choose("step", menu.len())]
+        } else {
+            let c = choose("step", menu.len() + 1);
+            if c == 0 {
+                break;
+            }
+            menu[c - 1]
+        };
         steps.push(s);
         {
             let mut k = h.knobs();
@@ -155,6 +187,14 @@ fn run_one(ctx: &RunCtx, tier: Tier) -> RunOut {
                     k.plan_ok = false;
                 }
                 Step::Forged => k.uc = Uc::Forged,
+                Step::NoUpdateAfterRetry => {
+                    k.uc = Uc::NoUpdate;
+                    k.uc_fail_first = 1;
+                }
+                Step::UnparseableAfterRetries => {
+                    k.uc = Uc::Unparseable;
+                    k.uc_fail_first = 2;
+                }
                 Step::InstalledRetryAfter => {
                     k.uc = Uc::Update;
                     k.other_retry_after = vec![None, Some(b"600".to_vec()), None];
@@ -263,7 +303,9 @@ fn oracle(
         Ok(())
     };
     check_snapshot(initial, &[book], None, "before anything was committed")?;
-    for (si, (step, lo, hi, l0, l1)) in marks.iter().enumerate() {
+    for (si, (raw_step, lo, hi, l0, l1)) in marks.iter().enumerate() {
+        let eff = effective(*raw_step, poll.is_some());
+        let step = &eff;
         let seg = &log[*l0..*l1];
         crash_points += seg.len() as u64;
         let before = book;
@@ -536,17 +578,29 @@ fn run_oneshot(ctx: &RunCtx) -> RunOut {
 }
 
 fn parts(tier: Tier) -> Vec<PartDef> {
-    vec![PartDef::new(
+    let mut v = vec![PartDef::new(
         "oneshot-durability",
         Cfg::new("C08/oneshot-durability"),
         json!({"classes": 10, "cup": 2, "prior_storage": ["empty", "2 failures + old contact time"], "oracle": "after the one-shot stream ended a machine rebuilt on the committed storage presents the reference values", "exploration": "full product"}),
         run_oneshot,
-    ), PartDef::new(
-        "histories-with-crash-points",
-        Cfg::new("C08/histories"),
-        json!({"max_history_length": tier.pick(4, 5), "check_classes": 13, "ping_classes": 4, "restart": "any position", "cup": ["off", "on"], "construction_failure_config": true,
-               "crash_points": "every environment interaction (decided per surviving committed snapshot; each snapshot is rebuilt into a fresh state machine)",
-               "exploration": "full product"}),
-        move |ctx| run_one(ctx, tier),
-    )]
+    )];
+    let mk = |name: &str, len: usize, dev: Option<usize>| {
+        let cfg = match dev {
+            None => Cfg::new(&format!("C08/{name}")),
+            Some(d) => Cfg::new(&format!("C08/{name}")).dev(d).free(&["cup", "bad_url"]),
+        };
+        PartDef::new(
+            name,
+            cfg,
+            json!({"history_length": if dev.is_some() { format!("exactly {len}") } else { format!("0..{len}") }, "check_classes": 15, "ping_classes": 4, "restart": "any position", "cup": ["off", "on"], "construction_failure_config": true,
+                   "crash_points": "every environment interaction (decided per surviving committed snapshot; each snapshot is rebuilt into a fresh state machine)",
+                   "exploration": match dev { None => "full product".to_string(), Some(d) => format!("all histories with at most {d} steps other than the default step (no-update check / successful ping)") }}),
+            move |ctx| run_one(ctx, len, dev.is_some()),
+        )
+    };
+    match tier {
+        Tier::Quick => v.extend(vec![mk("histories-with-crash-points", 3, None), mk("histories-len5-dev2", 5, Some(2))]),
+        Tier::Thorough => v.extend(vec![mk("histories-with-crash-points", 4, None), mk("histories-len6-dev3", 6, Some(3)), mk("histories-len8-dev2", 8, Some(2))]),
+    }
+    v
 }
